@@ -31,6 +31,7 @@ def defRule (n : String) (k : Nat) : Stm → Bool
 def stmAvoids (n : Sig) : Stm → Bool
   | .rule _ _ h b => headAvoids n h && bodyAvoids n b
   | .minimize _ _ _ _ _ b => bodyAvoids n b
+  | .showTerm _ b => bodyAvoids n b
   | _ => true
 
 /-- the side condition of the deletion, decidable on the syntax -/
@@ -195,5 +196,22 @@ theorem unused_costs (n : Sig) (s : Stm) (hav : stmAvoids n s = true) (T T' : In
     · rintro ⟨e, hb, h⟩; exact ⟨e, (bodySat_indep P n _ b hav e T T T' T' hag hag).mp hb, h⟩
     · rintro ⟨e, hb, h⟩; exact ⟨e, (bodySat_indep P n _ b hav e T T T' T' hag hag).mpr hb, h⟩
   | _ => simp only [costTuples]
+
+/-- the terms a `#show t : B.` statement displays in the answer set `T` -/
+def shownTerms (T : Interp) : Stm → Sym → Prop
+  | .showTerm t b, x => ∃ e : Env, bodySat P (fun v => v ∈ bodyGlobals b ++ t.vars) e T T b ∧ evalTerm P e t = some x
+  | _, _ => False
+
+/-- **display**: a `#show` term statement that does not mention the predicate displays the same terms before and after -/
+theorem unused_shown (n : Sig) (s : Stm) (hav : stmAvoids n s = true) (T T' : Interp)
+    (hag : AgreeOffName n T T') (x : Sym) : shownTerms P T s x ↔ shownTerms P T' s x := by
+  cases s with
+  | showTerm t b =>
+    simp only [stmAvoids] at hav
+    simp only [shownTerms]
+    constructor
+    · rintro ⟨e, hb, h⟩; exact ⟨e, (bodySat_indep P n _ b hav e T T T' T' hag hag).mp hb, h⟩
+    · rintro ⟨e, hb, h⟩; exact ⟨e, (bodySat_indep P n _ b hav e T T T' T' hag hag).mpr hb, h⟩
+  | _ => simp only [shownTerms]
 
 end NgoVerif.Proofs.C09sem
